@@ -1,7 +1,7 @@
 """C01 — bounded stand-in over program texts (see runtime/h_pipeline.py); contracts on the pipeline functions are added below as they are discharged."""
 ID = "C01"
 LEVEL = "exploration"
-FUNCTIONS = ['codelimit.common.Scanner:scan_file']
+FUNCTIONS = ['codelimit.common.Scanner:scan_file', 'codelimit.common.scope.scope_utils:get_blocks']
 BOUNDED_BUDGET = 300
 TRUSTED = ["Pygments lexers (exercised, not verified)", "the canonical-program generator's expected values (computed from the derivation)"]
 ASSUMPTIONS = []
